@@ -38,8 +38,20 @@ def sizes_for(c):
     return sorted(set(s for s in (0, 1, c - 1, c, c + 1, 2 * c, 2 * c + 1) if s >= 0))
 
 
+CONTENT_KIND = ["pattern"]
+
+
 def content(n, salt):
-    return bytes((i * 31 + salt * 7 + (i >> 8)) & 0xff for i in range(n)) if n < 5000 else (bytes(range(256)) * (n // 256 + 1))[:n]
+    kind = CONTENT_KIND[0]
+    if kind == "zeros":
+        return b"\x00" * n
+    base = bytes((i * 31 + salt * 7 + (i >> 8)) & 0xff for i in range(n)) if n < 5000 else (bytes(range(256)) * (n // 256 + 1))[:n]
+    if kind == "zero-tail" and n:
+        k = max(1, n // 2)
+        return base[:n - k] + b"\x00" * k
+    if kind == "newlines" and n:
+        return (b"a\r\n\n\x1a" * n)[:n]
+    return base
 
 
 def tree_shapes():
@@ -121,7 +133,9 @@ def run_cases(cases):
         w.start_server()
         w.cconn = MasterService()._connect(Channel(w.a), {})
         conn = w.cconn
-        for ci, (direction, shape, chunk, fname, rot) in enumerate(cases):
+        for ci, case in enumerate(cases):
+            direction, shape, chunk, fname, rot = case[:5]
+            CONTENT_KIND[0] = case[5] if len(case) > 5 else "pattern"
             src = os.path.join(tmp, "s%d" % ci)
             dst = os.path.join(tmp, "d%d" % ci)
             sz = sizes_for(chunk)
@@ -185,7 +199,14 @@ def all_cases(tier):
                     rots = range(len(sizes_for(c))) if tier == "thorough" else (shapes.index(sh) % 7,)
                     for rot in rots:
                         cases.append((direction, sh, c, fname, rot))
-    return cases
+    # file contents: a byte pattern, all zeros, a zero tail (sparse-file shortcuts), text-mode traps
+    out = []
+    for c in cases:
+        for kind in ("pattern", "zeros", "zero-tail", "newlines"):
+            if kind != "pattern" and tier == "quick" and c[1] != "F" and hash((c[1], c[2])) % 3:
+                continue
+            out.append(c + (kind,))
+    return out
 
 
 def chunks(xs, n):
@@ -197,7 +218,7 @@ def replay(rep):
 
     def tup(x):
         return tuple(tup(i) for i in x) if isinstance(x, list) else x
-    c = (case[0], tup(case[1]), case[2], case[3], case[4])
+    c = (case[0], tup(case[1]), case[2], case[3], case[4]) + tuple(case[5:6])
     a, b = run_cases([c])[1], run_cases([c])[1]
     if [x[0] for x in a] != [x[0] for x in b]:
         print("REPLAY-DIVERGENCE")
@@ -226,7 +247,7 @@ def main(tier, replay_obj=None):
                 case = ast.literal_eval(text.split(": ")[0])
             except Exception:
                 case = cs[0]
-            res.violation(sig, text, {"case": [case[0], case[1], case[2], case[3], case[4]]})
+            res.violation(sig, text, {"case": list(case)})
     res.evaluations = n
     res.distinct_count_extra = n
     res.parts["cases"] = {"cases": len(cases), "completed": n, "tree_shapes": len(tree_shapes())}
